@@ -1,6 +1,7 @@
 import TextxVerif.Proofs.ExportModel
 import TextxVerif.Proofs.ExportPuml
 import TextxVerif.Proofs.ExportTotal
+import TextxVerif.Proofs.ExportDomain
 /-!
 # C29 — graph exports are well-formed for any model and metamodel
 
@@ -235,6 +236,45 @@ theorem C29_plantuml_balanced (all : List MCls) (base : List Str) (lt : Option S
       · intro c hc h1 h2 hm
         apply List.mem_flatMap.mpr
         exact ⟨.cls c, hcls c hc h1 h2, by simp [declared, hm]⟩
+
+/-! ## end to end, with executable hypotheses
+
+`heapOkB`, `closedB`, `clsOkB`, `pclsOkB`, `linetypeOkB` are evaluated by the driver on
+every case of the correspondence run, so each compared case is known to lie inside the
+domain of these theorems. -/
+
+/-- model export: a text is produced, it is valid DOT, no object has two nodes and every
+reachable object has one -/
+theorem C29_model_export_checked (h : Heap) (roots : List Root) (h1 : heapOkB h = true)
+    (h2 : closedB h roots = true) :
+    ∃ text ss, exportModel h roots = some text ∧ text = renderDoc ss ∧
+      recognise text = some (headerEvs ++ ss.flatMap stmtEvs) ∧
+      (nodeIds ss).Nodup ∧ ∀ i, Reach h roots i → i ∈ nodeIds ss := by
+  obtain ⟨hc, hr⟩ := closed_of_B h2
+  obtain ⟨text, ht⟩ := exportModel_total h hc roots hr
+  obtain ⟨ss, _, h3, h4, _, _, h5, _, h6⟩ := C29_model_export_valid h roots (heapOk_of_B h1) text ht
+  exact ⟨text, ss, ht, h3, h4, h5, h6⟩
+
+theorem C29_metamodel_dot_checked (all : List MCls) (base : List Str) (h1 : all.all clsOkB = true) (text : Str)
+    (he : mmDot all base = some text) :
+    ∃ ss, text = renderDoc ss ∧ recognise text = some (headerEvs ++ ss.flatMap stmtEvs) ∧
+      ∀ c ∈ all, c.fqn ∉ base ++ [cl!"OBJECT"] → c.name ∉ base ++ [cl!"OBJECT"] → c.typ ≠ .match →
+        ∃ n a, Stmt.node true c.id n a ∈ ss ∧ recOk (recordLabel n a) = true := by
+  have hall : ∀ c ∈ all, ClsOk c := fun c hc => clsOk_of_B (List.all_eq_true.mp h1 c hc)
+  obtain ⟨ss, _, h3, h4, _, h5⟩ := C29_metamodel_dot_valid all base hall text he
+  refine ⟨ss, h3, h4, ?_⟩
+  intro c hc a b d
+  obtain ⟨m1, m2⟩ := h5 c hc a b d
+  exact ⟨_, _, m1, m2⟩
+
+theorem C29_plantuml_checked (all : List MCls) (base : List Str) (lt : Option Str) (h1 : all.all pclsOkB = true)
+    (h2 : linetypeOkB lt = true) (text : Str) (he : mmPuml all base lt = some text) :
+    ∃ declared, pumlRecognise text = some declared ∧
+      ∀ c ∈ all, c.fqn ∉ base ++ [cl!"OBJECT"] → c.name ∉ base ++ [cl!"OBJECT"] → c.typ ≠ .match →
+        c.fqn ∈ declared := by
+  have hall : ∀ c ∈ all, PClsOk c := fun c hc => pclsOk_of_B (List.all_eq_true.mp h1 c hc)
+  obtain ⟨items, _, h3, h4⟩ := C29_plantuml_balanced all base lt hall (linetypeOk_of_B h2) text he
+  exact ⟨_, h3, h4⟩
 
 /-- The pinned behaviour (no escaping of `name`) violates the property: an object named
 `a"b` yields a text the recogniser rejects, and an object named `a{b` yields a label that
